@@ -30,13 +30,9 @@ JointOf(c, r) == (CHOOSE k \in 1..Len(Tab) : Tab[k].scheme = c.scheme /\ Tab[k].
 OA(c, h) == (h - 1) \div c.K
 OB(c, h) == (h - 1) % c.K
 \* Cov(a_i, a_j) for the parents tuple par (0-based taxon ids): E[a_i a_j] - E[a_i] E[a_j]
+\* (c.s = -1: selfing for ever -- the tables of the "inbred" stage of ProgenyVar, for every scheme)
 Cov(c, par, li, lj) ==
-    IF c.s = -1
-    THEN \* infinite selfing, two-way: recombination fraction 2r/(1+2r); Cov = d_i d_j (1 - 2 r_inf) / 4
-         LET di == c.A[par[1] + 1][li] - c.A[par[2] + 1][li]
-             dj == c.A[par[1] + 1][lj] - c.A[par[2] + 1][lj]
-             r == c.rhoM[li][lj]
-         IN RNorm(<<di * dj * (c.D - 2 * r), 4 * (c.D + 2 * r)>>)
+    IF FALSE THEN <<0, 1>>
     ELSE LET J == Tab[JointOf(c, c.rhoM[li][lj])].joint
              NH == c.K * c.K
              T == SumTo(J, NH)
